@@ -104,11 +104,6 @@ Section HeapStage.
     destruct Hu as [c [du [x [_ [A _]]]]]. congruence.
   Qed.
 
-  Lemma sgsum_upd_notin : forall s sig' w x l,
-    bsig s = sig' -> ~ In w l ->
-    Qsum (map (get 0 (upd w x sig')) l) = Qsum (map (get 0 sig') l).
-  Proof. intros s sig' w x l _ Hn. rewrite map_get_upd_notin by exact Hn. reflexivity. Qed.
-
   (* ---------------------------------------------------------------- initial state *)
   Lemma L_init : L (init_b g src) [] [].
   Proof.
